@@ -4,7 +4,6 @@ package watch
 
 import (
 	"fmt"
-	"io"
 
 	"github.com/ohler55/slip"
 	"github.com/ohler55/slip/pkg/flavors"
@@ -35,7 +34,7 @@ func PrinterFlavor() *flavors.Flavor {
 type printerChangedCaller struct{}
 
 func (caller printerChangedCaller) Call(s *slip.Scope, args slip.List, depth int) slip.Object {
-	w := s.Get("*standard-output*").(io.Writer)
+	w := s.WriterVar("*standard-output*", depth)
 	_, _ = fmt.Fprintf(w, "%s: %s\n", args[0], args[1])
 	return nil
 }
